@@ -1,6 +1,6 @@
 (* C10 — one connection's misbehaviour never harms another connection. *)
 From Coq Require Import ZArith List Bool.
-From HP Require Import Bytes Sha1 Wire Broker BrokerSpec BrokerInv BrokerStep BrokerTrace BrokerLocal BrokerProps BrokerProps2.
+From HP Require Import Bytes Sha1 Wire Broker BrokerSpec BrokerInv BrokerStep BrokerTrace BrokerLocal BrokerProps BrokerProps2 BrokerBenign.
 Import ListNotations.
 
 Section C10.
@@ -39,6 +39,19 @@ Proof. exact (pp_term bname store async_store). Qed.
 Theorem C10_permitted_subscribe_ok : forall q c s, In c (subchans (conns s q)) -> copen (conns s q) = true ->
   on_subscribe q c s = Ok (sub q c s).
 Proof. exact permitted_subscribe_ok. Qed.
+(* ... nor does any accepted request start closing ANYBODY: a permitted SUBSCRIBE, any UNSUBSCRIBE and a PUBLISH under the
+   own identity on a permitted channel are accepted (no error, no exception) and leave the closing flag of every
+   connection as it was (Server.publish may reap a subscriber that was already closing; it never starts a close) *)
+Theorem C10_permitted_subscribe : forall q c s, In c (subchans (conns s q)) -> copen (conns s q) = true ->
+  on_subscribe q c s = Ok (sub q c s) /\ sameclosing s (sub q c s).
+Proof. exact permitted_subscribe. Qed.
+Theorem C10_any_unsubscribe : forall q c s, copen (conns s q) = true ->
+  on_unsubscribe q c s = Ok (unsub q c s) /\ sameclosing s (unsub q c s).
+Proof. exact any_unsubscribe. Qed.
+Theorem C10_permitted_publish : forall q me c d s, Good store async_store s ->
+  ak (conns s q) = Some me -> In c (pubchans (conns s q)) -> copen (conns s q) = true ->
+  exists s', on_publish q me c d s = Ok s' /\ sameclosing s s' /\ Good store async_store s'.
+Proof. exact (permitted_publish store async_store). Qed.
 End C10.
 
 Print Assumptions C10_frame_local.
@@ -46,3 +59,6 @@ Print Assumptions C10_tick_local.
 Print Assumptions C10_deliveries_exact.
 Print Assumptions C10_terminates.
 Print Assumptions C10_permitted_subscribe_ok.
+Print Assumptions C10_permitted_subscribe.
+Print Assumptions C10_any_unsubscribe.
+Print Assumptions C10_permitted_publish.
